@@ -2,62 +2,24 @@
 // Use of this source code is governed by a BSD-style
 // license that can be found in the LICENSE file.
 
-// Package ssa/interp defines an interpreter for the SSA
-// representation of Go programs.
-//
-// This interpreter is provided as an adjunct for testing the SSA
-// construction algorithm.  Its purpose is to provide a minimal
-// metacircular implementation of the dynamic semantics of each SSA
-// instruction.  It is not, and will never be, a production-quality Go
-// interpreter.
-//
-// The following is a partial list of Go features that are currently
-// unsupported or incomplete in the interpreter.
-//
-// * Unsafe operations, including all uses of unsafe.Pointer, are
-// impossible to support given the "boxed" value representation we
-// have chosen.
-//
-// * The reflect package is only partially implemented.
-//
-// * The "testing" package is no longer supported because it
-// depends on low-level details that change too often.
-//
-// * "sync/atomic" operations are not atomic due to the "boxed" value
-// representation: it is not possible to read, modify and write an
-// interface value atomically. As a consequence, Mutexes are currently
-// broken.
-//
-// * recover is only partially implemented.  Also, the interpreter
-// makes no attempt to distinguish target panics from interpreter
-// crashes.
-//
-// * the sizes of the int, uint and uintptr types in the target
-// program are assumed to be the same as those of the interpreter
-// itself.
-//
-// * all values occupy space, even those of types defined by the spec
-// to have zero size, e.g. struct{}.  This can cause asymptotic
-// performance degradation.
-//
-// * os.Exit is implemented using panic, causing deferred functions to
-// run.
-package interp // import "golang.org/x/tools/go/ssa/interp"
+// Package interp is gosym's symbolic executor for Go SSA.  It is a fork of
+// golang.org/x/tools/go/ssa/interp (v0.50.0): the concrete interpreter is
+// kept for the long tail of Go semantics; integers and booleans may be
+// symbolic (SMT terms), branches on symbolic conditions are decided by an SMT
+// solver, goroutines are coroutines under an explicit scheduler, maps are
+// insertion ordered, and every path is explored by replay from a decision
+// prefix.
+package interp
 
 import (
 	"fmt"
 	"go/token"
 	"go/types"
-	"log"
-	"os"
-	"reflect"
 	"runtime"
 	"slices"
-	"sync/atomic"
-	_ "unsafe"
+	"strings"
 
 	"golang.org/x/tools/go/ssa"
-	"golang.org/x/tools/internal/typeparams"
 )
 
 type continuation int
@@ -68,28 +30,14 @@ const (
 	kJump
 )
 
-// Mode is a bitmask of options affecting the interpreter.
-type Mode uint
-
-const (
-	DisableRecover Mode = 1 << iota // Disable recover() in target programs; show interpreter crash instead.
-	EnableTracing                   // Print a trace of all instructions as they are interpreted.
-)
-
-type methodSet map[string]*ssa.Function
-
-// State shared between all interpreted goroutines.
-type interpreter struct {
-	osArgs             []value                // the value of os.Args
-	prog               *ssa.Program           // the SSA program
-	globals            map[*ssa.Global]*value // addresses of global variables (immutable)
-	mode               Mode                   // interpreter options
-	reflectPackage     *ssa.Package           // the fake reflect package
-	errorMethods       methodSet              // the method set of reflect.error, which implements the error interface.
-	rtypeMethods       methodSet              // the method set of rtype, which implements the reflect.Type interface.
-	runtimeErrorString types.Type             // the runtime.errorString type (iff "runtime" is present)
-	sizes              types.Sizes            // the effective type-sizing function
-	goroutines         int32                  // atomically updated
+func mustDeref(t types.Type) types.Type {
+	if p, ok := t.Underlying().(*types.Pointer); ok {
+		return p.Elem()
+	}
+	if p, ok := types.Unalias(t).(*types.Pointer); ok {
+		return p.Elem()
+	}
+	panic(fmt.Sprintf("mustDeref: %v is not a pointer", t))
 }
 
 type deferred struct {
@@ -100,7 +48,7 @@ type deferred struct {
 }
 
 type frame struct {
-	i                *interpreter
+	w                *world
 	caller           *frame
 	fn               *ssa.Function
 	block, prevBlock *ssa.BasicBlock
@@ -124,46 +72,46 @@ func (fr *frame) get(key ssa.Value) value {
 	case *ssa.Const:
 		return constValue(key)
 	case *ssa.Global:
-		if r, ok := fr.i.globals[key]; ok {
-			return r
-		}
+		return fr.w.globalAddr(key)
 	}
 	if r, ok := fr.env[key]; ok {
 		return r
 	}
-	panic(fmt.Sprintf("get: no value for %T: %v", key, key.Name()))
+	panic(pathEnd{oEngine, fmt.Sprintf("get: no value for %T: %v in %s", key, key.Name(), fr.fn)})
+}
+
+// isEngineAbort reports whether a recovered panic value must propagate
+// without running target defers.
+func isEngineAbort(p any) bool {
+	switch p.(type) {
+	case pathEnd:
+		return true
+	case *runtime.TypeAssertionError:
+		return true
+	}
+	return false
 }
 
 // runDefer runs a deferred call d.
 // It always returns normally, but may set or clear fr.panic.
 func (fr *frame) runDefer(d *deferred) {
-	if fr.i.mode&EnableTracing != 0 {
-		fmt.Fprintf(os.Stderr, "%s: invoking deferred function call\n",
-			fr.i.prog.Fset.Position(d.instr.Pos()))
-	}
 	var ok bool
 	defer func() {
 		if !ok {
 			// Deferred call created a new state of panic.
+			r := recover()
+			if isEngineAbort(r) {
+				panic(r)
+			}
 			fr.panicking = true
-			fr.panic = recover()
+			fr.panic = r
 		}
 	}()
-	call(fr.i, fr, d.instr.Pos(), d.fn, d.args)
+	call(fr.w, fr, d.instr.Pos(), d.fn, d.args)
 	ok = true
 }
 
 // runDefers executes fr's deferred function calls in LIFO order.
-//
-// On entry, fr.panicking indicates a state of panic; if
-// true, fr.panic contains the panic value.
-//
-// On completion, if a deferred call started a panic, or if no
-// deferred call recovered from a previous state of panic, then
-// runDefers itself panics after the last deferred call has run.
-//
-// If there was no initial state of panic, or it was recovered from,
-// runDefers returns normally.
 func (fr *frame) runDefers() {
 	for d := fr.defers; d != nil; d = d.tail {
 		fr.runDefer(d)
@@ -174,35 +122,33 @@ func (fr *frame) runDefers() {
 	}
 }
 
-// lookupMethod returns the method set for type typ, which may be one
-// of the interpreter's fake types.
-func lookupMethod(i *interpreter, typ types.Type, meth *types.Func) *ssa.Function {
-	switch typ {
-	case rtypeType:
-		return i.rtypeMethods[meth.Id()]
-	case errorType:
-		return i.errorMethods[meth.Id()]
-	}
-	return i.prog.LookupMethod(typ, meth.Pkg(), meth.Name())
+// lookupMethod returns the method of type typ.
+func lookupMethod(w *world, typ types.Type, meth *types.Func) *ssa.Function {
+	return w.p.prog.LookupMethod(typ, meth.Pkg(), meth.Name())
 }
 
 // visitInstr interprets a single ssa.Instruction within the activation
 // record frame.  It returns a continuation value indicating where to
 // read the next instruction from.
 func visitInstr(fr *frame, instr ssa.Instruction) continuation {
+	w := fr.w
+	w.steps++
+	if w.steps > w.cfg.MaxSteps {
+		panic(pathEnd{oUnwind, fmt.Sprintf("instruction budget %d exceeded in %s", w.cfg.MaxSteps, fr.fn)})
+	}
 	switch instr := instr.(type) {
 	case *ssa.DebugRef:
 		// no-op
 
 	case *ssa.UnOp:
-		fr.env[instr] = unop(instr, fr.get(instr.X))
+		fr.env[instr] = unop(fr, instr, fr.get(instr.X))
 
 	case *ssa.BinOp:
 		fr.env[instr] = binop(instr.Op, instr.X.Type(), fr.get(instr.X), fr.get(instr.Y))
 
 	case *ssa.Call:
 		fn, args := prepareCall(fr, &instr.Call)
-		fr.env[instr] = call(fr.i, fr, instr.Pos(), fn, args)
+		fr.env[instr] = call(fr.w, fr, instr.Pos(), fn, args)
 
 	case *ssa.ChangeInterface:
 		fr.env[instr] = fr.get(instr.X)
@@ -247,14 +193,19 @@ func visitInstr(fr *frame, instr ssa.Instruction) continuation {
 		panic(targetPanic{fr.get(instr.X)})
 
 	case *ssa.Send:
-		fr.get(instr.Chan).(chan value) <- fr.get(instr.X)
+		c := fr.get(instr.Chan).(*chanObj)
+		v := fr.get(instr.X)
+		if c == nil {
+			w.park("send on nil channel")
+		}
+		w.chanSelect([]selCase{{ch: c, send: true, val: v}}, false)
 
 	case *ssa.Store:
-		store(typeparams.MustDeref(instr.Addr.Type()), fr.get(instr.Addr).(*value), fr.get(instr.Val))
+		store(mustDeref(instr.Addr.Type()), fr.get(instr.Addr).(*value), fr.get(instr.Val))
 
 	case *ssa.If:
 		succ := 1
-		if fr.get(instr.Cond).(bool) {
+		if w.concreteBool(fr.get(instr.Cond)) {
 			succ = 0
 		}
 		fr.prevBlock, fr.block = fr.block, fr.block.Succs[succ]
@@ -279,14 +230,18 @@ func visitInstr(fr *frame, instr ssa.Instruction) continuation {
 
 	case *ssa.Go:
 		fn, args := prepareCall(fr, &instr.Call)
-		atomic.AddInt32(&fr.i.goroutines, 1)
-		go func() {
-			call(fr.i, nil, instr.Pos(), fn, args)
-			atomic.AddInt32(&fr.i.goroutines, -1)
-		}()
+		name := ""
+		switch f := fn.(type) {
+		case *ssa.Function:
+			name = f.String()
+		case *closure:
+			name = f.Fn.String()
+		}
+		w.spawn(fn, args, instr.Pos(), false, name)
+		w.maybePreempt()
 
 	case *ssa.MakeChan:
-		fr.env[instr] = make(chan value, asInt64(fr.get(instr.Size)))
+		fr.env[instr] = w.newChan(int(asInt64(fr.get(instr.Size))))
 
 	case *ssa.Alloc:
 		var addr *value
@@ -298,7 +253,7 @@ func visitInstr(fr *frame, instr ssa.Instruction) continuation {
 			// local
 			addr = fr.env[instr].(*value)
 		}
-		*addr = zero(typeparams.MustDeref(instr.Type()))
+		*addr = zero(mustDeref(instr.Type()))
 
 	case *ssa.MakeSlice:
 		slice := make([]value, asInt64(fr.get(instr.Cap)))
@@ -309,14 +264,7 @@ func visitInstr(fr *frame, instr ssa.Instruction) continuation {
 		fr.env[instr] = slice[:asInt64(fr.get(instr.Len))]
 
 	case *ssa.MakeMap:
-		var reserve int64
-		if instr.Reserve != nil {
-			reserve = asInt64(fr.get(instr.Reserve))
-		}
-		if !fitsInt(reserve, fr.i.sizes) {
-			panic(fmt.Sprintf("ssa.MakeMap.Reserve value %d does not fit in int", reserve))
-		}
-		fr.env[instr] = makeMap(instr.Type().Underlying().(*types.Map).Key(), reserve)
+		fr.env[instr] = makeMap(instr.Type().Underlying().(*types.Map).Key())
 
 	case *ssa.Range:
 		fr.env[instr] = rangeIter(fr.get(instr.X))
@@ -339,7 +287,7 @@ func visitInstr(fr *frame, instr ssa.Instruction) continuation {
 		case *value: // *array
 			fr.env[instr] = &(*x).(array)[asInt64(idx)]
 		default:
-			panic(fmt.Sprintf("unexpected x type in IndexAddr: %T", x))
+			panic(pathEnd{oEngine, fmt.Sprintf("unexpected x type in IndexAddr: %T", x)})
 		}
 
 	case *ssa.Index:
@@ -352,24 +300,18 @@ func visitInstr(fr *frame, instr ssa.Instruction) continuation {
 		case string:
 			fr.env[instr] = x[asInt64(idx)]
 		default:
-			panic(fmt.Sprintf("unexpected x type in Index: %T", x))
+			panic(pathEnd{oEngine, fmt.Sprintf("unexpected x type in Index: %T", x)})
 		}
 
 	case *ssa.Lookup:
 		fr.env[instr] = lookup(instr, fr.get(instr.X), fr.get(instr.Index))
 
 	case *ssa.MapUpdate:
-		m := fr.get(instr.Map)
-		key := fr.get(instr.Key)
-		v := fr.get(instr.Value)
-		switch m := m.(type) {
-		case map[value]value:
-			m[key] = v
-		case *hashmap:
-			m.insert(key.(hashable), v)
-		default:
-			panic(fmt.Sprintf("illegal map type: %T", m))
+		m := fr.get(instr.Map).(*omap)
+		if m == nil {
+			panic("assignment to entry in nil map")
 		}
+		m.insert(fr.get(instr.Key), fr.get(instr.Value))
 
 	case *ssa.TypeAssert:
 		fr.env[instr] = typeAssert(instr, fr.get(instr.X).(iface))
@@ -382,43 +324,34 @@ func visitInstr(fr *frame, instr ssa.Instruction) continuation {
 		fr.env[instr] = &closure{instr.Fn.(*ssa.Function), bindings}
 
 	case *ssa.Phi:
-		log.Fatal("unreachable") // phis are processed at block entry
+		panic(pathEnd{oEngine, "unreachable phi"})
 
 	case *ssa.Select:
-		var cases []reflect.SelectCase
-		if !instr.Blocking {
-			cases = append(cases, reflect.SelectCase{
-				Dir: reflect.SelectDefault,
-			})
-		}
+		var cases []selCase
 		for _, state := range instr.States {
-			var dir reflect.SelectDir
-			if state.Dir == types.RecvOnly {
-				dir = reflect.SelectRecv
-			} else {
-				dir = reflect.SelectSend
-			}
-			var send reflect.Value
+			c, _ := fr.get(state.Chan).(*chanObj)
+			sc := selCase{ch: c, send: state.Dir == types.SendOnly}
 			if state.Send != nil {
-				send = reflect.ValueOf(fr.get(state.Send))
+				sc.val = fr.get(state.Send)
 			}
-			cases = append(cases, reflect.SelectCase{
-				Dir:  dir,
-				Chan: reflect.ValueOf(fr.get(state.Chan)),
-				Send: send,
-			})
+			cases = append(cases, sc)
 		}
-		chosen, recv, recvOk := reflect.Select(cases)
-		if !instr.Blocking {
-			chosen-- // default case should have index -1.
+		allNil := true
+		for _, c := range cases {
+			if c.ch != nil {
+				allNil = false
+			}
 		}
+		if allNil && instr.Blocking {
+			w.park("select with no live case")
+		}
+		chosen, recv, recvOk := w.chanSelect(cases, !instr.Blocking)
 		r := tuple{chosen, recvOk}
 		for i, st := range instr.States {
 			if st.Dir == types.RecvOnly {
 				var v value
 				if i == chosen && recvOk {
-					// No need to copy since send makes an unaliased copy.
-					v = recv.Interface().(value)
+					v = recv
 				} else {
 					v = zero(st.Chan.Type().Underlying().(*types.Chan).Elem())
 				}
@@ -428,12 +361,8 @@ func visitInstr(fr *frame, instr ssa.Instruction) continuation {
 		fr.env[instr] = r
 
 	default:
-		panic(fmt.Sprintf("unexpected instruction: %T", instr))
+		panic(pathEnd{oEngine, fmt.Sprintf("unexpected instruction: %T", instr)})
 	}
-
-	// if val, ok := instr.(ssa.Value); ok {
-	// 	fmt.Println(toString(fr.env[val])) // debugging
-	// }
 
 	return kNext
 }
@@ -450,11 +379,17 @@ func prepareCall(fr *frame, call *ssa.CallCommon) (fn value, args []value) {
 		// Interface method invocation.
 		recv := v.(iface)
 		if recv.t == nil {
-			panic("method invoked on nil interface")
+			if pkg := call.Method.Pkg(); pkg != nil && fr.w.p.isNoopIfacePkg(pkg.Path()) {
+				// methods on nil tracing interfaces are no-ops
+				return &nativeFn{name: "noop:" + call.Method.FullName(), fn: func(fr *frame, args []value) value {
+					return zeroResults(call.Method.Type().(*types.Signature), args)
+				}}, fr.getArgs(call)
+			}
+			panic("invalid memory address or nil pointer dereference (method invoked on nil interface)")
 		}
-		if f := lookupMethod(fr.i, recv.t, call.Method); f == nil {
+		if f := lookupMethod(fr.w, recv.t, call.Method); f == nil {
 			// Unreachable in well-typed programs.
-			panic(fmt.Sprintf("method set for dynamic type %v does not contain %s", recv.t, call.Method))
+			panic(pathEnd{oEngine, fmt.Sprintf("method set for dynamic type %v does not contain %s", recv.t, call.Method)})
 		} else {
 			fn = f
 		}
@@ -466,22 +401,72 @@ func prepareCall(fr *frame, call *ssa.CallCommon) (fn value, args []value) {
 	return
 }
 
+func (fr *frame) getArgs(call *ssa.CallCommon) []value {
+	var args []value
+	for _, arg := range call.Args {
+		args = append(args, fr.get(arg))
+	}
+	return args
+}
+
+// zeroResults returns the zero value(s) of a signature's results; a context
+// result (for tracer.Start-like methods) is passed through from the args.
+func zeroResults(sig *types.Signature, args []value) value {
+	res := sig.Results()
+	switch res.Len() {
+	case 0:
+		return nil
+	case 1:
+		return zeroOrPass(res.At(0).Type(), args)
+	}
+	t := make(tuple, res.Len())
+	for i := range t {
+		t[i] = zeroOrPass(res.At(i).Type(), args)
+	}
+	return t
+}
+
+func zeroOrPass(t types.Type, args []value) value {
+	if isContextType(t) {
+		for _, a := range args {
+			if itf, ok := a.(iface); ok && itf.t != nil && types.Implements(itf.t, t.Underlying().(*types.Interface)) {
+				return a
+			}
+		}
+	}
+	return zero(t)
+}
+
+func isContextType(t types.Type) bool {
+	n, ok := types.Unalias(t).(*types.Named)
+	return ok && n.Obj().Pkg() != nil && n.Obj().Pkg().Path() == "context" && n.Obj().Name() == "Context"
+}
+
+// nativeFn is a function value implemented by the engine.
+type nativeFn struct {
+	name string
+	fn   func(fr *frame, args []value) value
+}
+
 // call interprets a call to a function (function, builtin or closure)
 // fn with arguments args, returning its result.
 // callpos is the position of the callsite.
-func call(i *interpreter, caller *frame, callpos token.Pos, fn value, args []value) value {
+func call(w *world, caller *frame, callpos token.Pos, fn value, args []value) value {
 	switch fn := fn.(type) {
 	case *ssa.Function:
 		if fn == nil {
-			panic("call of nil function") // nil of func type
+			panic("invalid memory address or nil pointer dereference (call of nil function)")
 		}
-		return callSSA(i, caller, callpos, fn, args, nil)
+		return callSSA(w, caller, callpos, fn, args, nil)
 	case *closure:
-		return callSSA(i, caller, callpos, fn.Fn, args, fn.Env)
+		return callSSA(w, caller, callpos, fn.Fn, args, fn.Env)
 	case *ssa.Builtin:
 		return callBuiltin(caller, fn, args)
+	case *nativeFn:
+		fr := &frame{w: w, caller: caller}
+		return fn.fn(fr, args)
 	}
-	panic(fmt.Sprintf("cannot call %T", fn))
+	panic(pathEnd{oEngine, fmt.Sprintf("cannot call %T", fn)})
 }
 
 func loc(fset *token.FileSet, pos token.Pos) string {
@@ -494,45 +479,58 @@ func loc(fset *token.FileSet, pos token.Pos) string {
 // callSSA interprets a call to function fn with arguments args,
 // and lexical environment env, returning its result.
 // callpos is the position of the callsite.
-func callSSA(i *interpreter, caller *frame, callpos token.Pos, fn *ssa.Function, args []value, env []value) value {
-	if i.mode&EnableTracing != 0 {
-		fset := fn.Prog.Fset
-		// TODO(adonovan): fix: loc() lies for external functions.
-		fmt.Fprintf(os.Stderr, "Entering %s%s.\n", fn, loc(fset, fn.Pos()))
-		suffix := ""
-		if caller != nil {
-			suffix = ", resuming " + caller.fn.String() + loc(fset, callpos)
-		}
-		defer fmt.Fprintf(os.Stderr, "Leaving %s%s.\n", fn, suffix)
-	}
+func callSSA(w *world, caller *frame, callpos token.Pos, fn *ssa.Function, args []value, env []value) value {
 	fr := &frame{
-		i:      i,
+		w:      w,
 		caller: caller, // for panic/recover
 		fn:     fn,
 	}
-	if fn.Parent() == nil {
-		name := fn.String()
-		if ext := externals[name]; ext != nil {
-			if i.mode&EnableTracing != 0 {
-				fmt.Fprintln(os.Stderr, "\t(external)")
-			}
-			return ext(fr, args)
+	info := w.p.fnInfo(fn)
+	if info.ext != nil {
+		if w.natives != nil {
+			w.natives[info.name] = true
 		}
-		if fn.Blocks == nil {
-			panic("no code for function: " + name)
+		return info.ext(fr, args)
+	}
+	if info.stubZero {
+		if w.natives != nil {
+			w.natives["stub:"+info.name] = true
 		}
+		return w.p.stubResult(fn, args)
+	}
+	if info.isInit {
+		w.p.callInit(fr, fn, info, func() { execSSA(w, fr, fn, info, args, env) })
+		return nil
+	}
+	if fn.Blocks == nil {
+		panic(unsupported("no code for function: " + info.name))
+	}
+	if info.unsupported != "" {
+		panic(unsupported(info.unsupported + ": " + info.name))
 	}
 
+	return execSSA(w, fr, fn, info, args, env)
+}
+
+func execSSA(w *world, fr *frame, fn *ssa.Function, info *fnInfo, args []value, env []value) value {
 	// generic function body?
 	if fn.TypeParams().Len() > 0 && len(fn.TypeArgs()) == 0 {
-		panic("interp requires ssa.BuilderMode to include InstantiateGenerics to execute generics")
+		panic(pathEnd{oEngine, "uninstantiated generic " + info.name})
 	}
+	if w.fnsSeen != nil && !w.fnsSeen[fn] {
+		w.fnsSeen[fn] = true
+	}
+	w.depth++
+	if w.depth > w.cfg.MaxDepth {
+		panic(pathEnd{oUnwind, "call depth exceeded in " + info.name})
+	}
+	defer func() { w.depth-- }()
 
-	fr.env = make(map[ssa.Value]value)
+	fr.env = make(map[ssa.Value]value, info.nvals)
 	fr.block = fn.Blocks[0]
 	fr.locals = make([]value, len(fn.Locals))
 	for i, l := range fn.Locals {
-		fr.locals[i] = zero(typeparams.MustDeref(l.Type()))
+		fr.locals[i] = zero(mustDeref(l.Type()))
 		fr.env[l] = &fr.locals[i]
 	}
 	for i, p := range fn.Params {
@@ -544,59 +542,29 @@ func callSSA(i *interpreter, caller *frame, callpos token.Pos, fn *ssa.Function,
 	for fr.block != nil {
 		runFrame(fr)
 	}
-	// Destroy the locals to avoid accidental use after return.
-	for i := range fn.Locals {
-		fr.locals[i] = bad{}
-	}
 	return fr.result
 }
 
 // runFrame executes SSA instructions starting at fr.block and
 // continuing until a return, a panic, or a recovered panic.
-//
-// After a panic, runFrame panics.
-//
-// After a normal return, fr.result contains the result of the call
-// and fr.block is nil.
-//
-// A recovered panic in a function without named return parameters
-// (NRPs) becomes a normal return of the zero value of the function's
-// result type.
-//
-// After a recovered panic in a function with NRPs, fr.result is
-// undefined and fr.block contains the block at which to resume
-// control.
 func runFrame(fr *frame) {
 	defer func() {
 		if fr.block == nil {
 			return // normal return
 		}
-		if fr.i.mode&DisableRecover != 0 {
-			return // let interpreter crash
+		r := recover()
+		if isEngineAbort(r) {
+			panic(r)
 		}
 		fr.panicking = true
-		fr.panic = recover()
-		if fr.i.mode&EnableTracing != 0 {
-			fmt.Fprintf(os.Stderr, "Panicking: %T %v.\n", fr.panic, fr.panic)
-		}
+		fr.panic = r
 		fr.runDefers()
 		fr.block = fr.fn.Recover
 	}()
 
 	for {
-		if fr.i.mode&EnableTracing != 0 {
-			fmt.Fprintf(os.Stderr, ".%s:\n", fr.block)
-		}
-
 		nonPhis := executePhis(fr)
 		for _, instr := range nonPhis {
-			if fr.i.mode&EnableTracing != 0 {
-				if v, ok := instr.(ssa.Value); ok {
-					fmt.Fprintln(os.Stderr, "\t", v.Name(), "=", instr)
-				} else {
-					fmt.Fprintln(os.Stderr, "\t", instr)
-				}
-			}
 			if visitInstr(fr, instr) == kReturn {
 				return
 			}
@@ -620,17 +588,10 @@ func executePhis(fr *frame) []ssa.Instruction {
 	nonPhis := fr.block.Instrs[firstNonPhi:]
 	if firstNonPhi > 0 {
 		phis := fr.block.Instrs[:firstNonPhi]
-		// Execute parallel assignment of phis.
-		//
-		// See "the swap problem" in Briggs et al's "Practical Improvements
-		// to the Construction and Destruction of SSA Form" for discussion.
 		predIndex := slices.Index(fr.block.Preds, fr.prevBlock)
 		fr.phitemps = fr.phitemps[:0]
 		for _, phi := range phis {
 			phi := phi.(*ssa.Phi)
-			if fr.i.mode&EnableTracing != 0 {
-				fmt.Fprintln(os.Stderr, "\t", phi.Name(), "=", phi)
-			}
 			fr.phitemps = append(fr.phitemps, fr.get(phi.Edges[predIndex]))
 		}
 		for i, phi := range phis {
@@ -646,109 +607,25 @@ func doRecover(caller *frame) value {
 	// function (two levels beneath the panicking function) to
 	// have any effect.  Thus we ignore both "defer recover()" and
 	// "defer f() -> g() -> recover()".
-	if caller.i.mode&DisableRecover == 0 &&
-		caller != nil && !caller.panicking &&
+	if caller != nil && !caller.panicking &&
 		caller.caller != nil && caller.caller.panicking {
 		caller.caller.panicking = false
 		p := caller.caller.panic
 		caller.caller.panic = nil
 
-		// TODO(adonovan): support runtime.Goexit.
 		switch p := p.(type) {
 		case targetPanic:
 			// The target program explicitly called panic().
 			return p.v
 		case runtime.Error:
 			// The interpreter encountered a runtime error.
-			return iface{caller.i.runtimeErrorString, p.Error()}
+			return iface{caller.w.p.runtimeErrorString, p.Error()}
 		case string:
 			// The interpreter explicitly called panic().
-			return iface{caller.i.runtimeErrorString, p}
+			return iface{caller.w.p.runtimeErrorString, "runtime error: " + strings.TrimPrefix(p, "runtime error: ")}
 		default:
-			panic(fmt.Sprintf("unexpected panic type %T in target call to recover()", p))
+			panic(pathEnd{oEngine, fmt.Sprintf("unexpected panic type %T in target call to recover()", p)})
 		}
 	}
 	return iface{}
-}
-
-// Interpret interprets the Go program whose main package is mainpkg.
-// mode specifies various interpreter options.  filename and args are
-// the initial values of os.Args for the target program.  sizes is the
-// effective type-sizing function for this program.
-//
-// Interpret returns the exit code of the program: 2 for panic (like
-// gc does), or the argument to os.Exit for normal termination.
-//
-// The SSA program must include the "runtime" package.
-//
-// Type parameterized functions must have been built with
-// InstantiateGenerics in the ssa.BuilderMode to be interpreted.
-func Interpret(mainpkg *ssa.Package, mode Mode, sizes types.Sizes, filename string, args []string) (exitCode int) {
-	i := &interpreter{
-		prog:       mainpkg.Prog,
-		globals:    make(map[*ssa.Global]*value),
-		mode:       mode,
-		sizes:      sizes,
-		goroutines: 1,
-	}
-	runtimePkg := i.prog.ImportedPackage("runtime")
-	if runtimePkg != nil {
-		i.runtimeErrorString = runtimePkg.Type("errorString").Object().Type()
-	}
-
-	initReflect(i)
-
-	i.osArgs = append(i.osArgs, filename)
-	for _, arg := range args {
-		i.osArgs = append(i.osArgs, arg)
-	}
-
-	for _, pkg := range i.prog.AllPackages() {
-		// Initialize global storage.
-		for _, m := range pkg.Members {
-			switch v := m.(type) {
-			case *ssa.Global:
-				cell := zero(typeparams.MustDeref(v.Type()))
-				i.globals[v] = &cell
-			}
-		}
-	}
-
-	// Top-level error handler.
-	exitCode = 2
-	defer func() {
-		if exitCode != 2 || i.mode&DisableRecover != 0 {
-			return
-		}
-		switch p := recover().(type) {
-		case exitPanic:
-			exitCode = int(p)
-			return
-		case targetPanic:
-			fmt.Fprintln(os.Stderr, "panic:", toString(p.v))
-		case runtime.Error:
-			fmt.Fprintln(os.Stderr, "panic:", p.Error())
-		case string:
-			fmt.Fprintln(os.Stderr, "panic:", p)
-		default:
-			fmt.Fprintf(os.Stderr, "panic: unexpected type: %T: %v\n", p, p)
-		}
-
-		// TODO(adonovan): dump panicking interpreter goroutine?
-		// buf := make([]byte, 0x10000)
-		// runtime.Stack(buf, false)
-		// fmt.Fprintln(os.Stderr, string(buf))
-		// (Or dump panicking target goroutine?)
-	}()
-
-	// Run!
-	call(i, nil, token.NoPos, mainpkg.Func("init"), nil)
-	if mainFn := mainpkg.Func("main"); mainFn != nil {
-		call(i, nil, token.NoPos, mainFn, nil)
-		exitCode = 0
-	} else {
-		fmt.Fprintln(os.Stderr, "No main function.")
-		exitCode = 1
-	}
-	return
 }
